@@ -2,7 +2,7 @@
 corrupting (fault enumeration with the guarded allocation hook)."""
 import gc
 
-from .. import families, gen, harness, hist, setops, walker
+from .. import minidb, families, gen, harness, hist, setops, walker
 from ..families import f32, sort_keys
 from ..harness import brief, eq
 from ..runner import rng_for
@@ -37,6 +37,7 @@ QUICK_FAMS = ['II', 'OO', 'LF', 'fs', 'QO', 'OI', 'UU', 'IO']
 
 def must_see(tier):
     m = {'failures-injected': 1500, 'outcome:MemoryError': 1000,
+         'failures-injected:stored': 300,
          'outcome:unchanged': 300, 'sort-buffer-fallback': 1}
     for op in ('insert-empty', 'insert-grow', 'insert-split', 'update',
                'ior', 'fn:union', 'fn:difference', 'multiunion', 'resolve',
@@ -106,6 +107,11 @@ def run_container(fam, kind, rng, rec, ci, arm, count):
     desc = dict(family=fam.name, kind=kind, impl=impl, sizes=sizes,
                 base=brief(sort_keys(base_keys), 200))
 
+    # every third container lives in a database and is swept before the
+    # operation: the allocations of the ghost loads (node vectors in
+    # __setstate__) then fail INSIDE the operation that triggered the load
+    stored = [ci % 3 == 1]
+
     def rebuild():
         arm(0)
         c = cls()
@@ -114,13 +120,29 @@ def run_container(fam, kind, rng, rec, ci, arm, count):
                 c[k] = base_vals[k]
             else:
                 c.add(k)
+        if stored[0]:
+            conn = minidb.Connection(minidb.Storage(), 'c')
+            conn.log_events = False
+            conn.add(c)
+            conn.commit()
+            conn.cache.minimize()
+            _CONN[0] = conn
         return c
+
+    def sweep():
+        if stored[0] and _CONN[0] is not None:
+            _CONN[0].cache.minimize()
 
     def contents(c):
         return harness.contents(c, is_mapping)
     c0 = rebuild()
     before = contents(c0)
     w0 = walker.walk(c0, is_mapping) if is_tree else None
+    if stored[0] and ((w0 is not None and w0.inline_nonroot) or not before):
+        stored[0] = False       # (F22 shape: the database copy is damaged)
+    if stored[0]:
+        desc['stored'] = True
+        rec.ev('stored-container')
     del c0
 
     def after_insert(keys_vals):
@@ -282,6 +304,7 @@ def run_container(fam, kind, rng, rec, ci, arm, count):
             _OTHER[0] = other()
             c = rebuild()
             wb = walker.walk(c, is_mapping) if is_tree else None
+            sweep()
             rec.journal(repr((desc, name, n, N)))
             arm(n)
             out = None
@@ -301,6 +324,8 @@ def run_container(fam, kind, rng, rec, ci, arm, count):
             rec.ev('failures-injected')
             rec.ev('fault:' + name)
             rec.ev('outcome:' + out)
+            if stored[0]:
+                rec.ev('failures-injected:stored')
             d = dict(desc, op=name, fail_alloc=n, allocations=N)
             if out == 'ok':
                 # only the sort buffer may be done without
@@ -400,3 +425,4 @@ def run_container(fam, kind, rng, rec, ci, arm, count):
 
 
 _OTHER = [None]
+_CONN = [None]
